@@ -152,11 +152,37 @@ def Explorer_paths(ctx, fn, crate, **kw):
     return Explorer(fn, facts=ctx.facts(), **kw).run()
 
 
+def r_clippy_crossref(ctx):
+    """Thorough tier: an independent extractor (clippy::iter_over_hash_type, a lint the project never enabled) must not know a `for` loop over a hash type that the MIR inventory lacks."""
+    import json, os, subprocess
+    from .. import extract
+    rid = 'R19.1x'
+    ctx.rule(rid, 'cross-reference: every site reported by clippy::iter_over_hash_type is in the MIR inventory (independent extractor, not a verdict)')
+    env = dict(os.environ)
+    env.update({'CARGO_NET_OFFLINE': 'true', 'CARGO_TARGET_DIR': os.path.join(extract.BUILD, 'target-clippy')})
+    p = subprocess.run(['cargo', '+nightly', 'clippy', '--offline', '--lib', '--message-format=json', '--', '-W', 'clippy::iter_over_hash_type'], cwd=extract.REPO, env=env, stdout=subprocess.PIPE, stderr=subprocess.PIPE, text=True)
+    sites = []
+    for l in p.stdout.splitlines():
+        try:
+            m = json.loads(l)
+        except ValueError:
+            continue
+        if m.get('reason') == 'compiler-message' and 'iter_over_hash_type' in ((m['message'].get('code') or {}).get('code') or ''):
+            sp = m['message']['spans'][0]
+            sites.append((sp['file_name'], sp['line_start']))
+    fx = ctx.facts()
+    inv = {(fx.F[pth].file, line) for pth, c, line, inst in hash_sites(fx)}
+    ctx.ob(rid, 'clippy-ran', p.returncode == 0, 'cargo +nightly clippy ran on /repo (%d hash-iteration loops reported)' % len(sites), None, p.stderr[-300:] if p.returncode else None)
+    for f, line in sites:
+        ctx.ob(rid, 'clippy-site:%s' % f, any(ff == f and abs(ll - line) <= 1 for ff, ll in inv), 'clippy site %s:%d is in the MIR inventory' % (f, line), '%s:%d' % (f, line))
+
+
 def check(ctx):
     r_inventory(ctx)
     r_deny(ctx)
     r_cli(ctx)
     if ctx.tier == 'thorough':
+        r_clippy_crossref(ctx)
         r_inventory(ctx, 'serde')
         r_deny(ctx, 'serde')
         r_cli(ctx, 'serde')
